@@ -85,6 +85,16 @@ def state_key(S, view=None, raw=None):
     return hashlib.sha1(repr(key).encode()).hexdigest()
 
 
+def content_key(S, view=None, raw=None):
+    """Order-insensitive key: unordered Python view + raw LP keyed by name (row/column order and list order may
+    legitimately depend on when optlang's lazy queue was flushed)."""
+    view = view if view is not None else observe.python_view(S.model)
+    raw = raw if raw is not None else observe.raw_lp(S.model)
+    key = (observe.freeze(observe.unordered(view)), observe.lp_canonical(raw, ordered=False),
+           tuple(sorted(S.user_cols)), tuple(sorted(S.user_rows)), len(S.stack))
+    return hashlib.sha1(repr(key).encode()).hexdigest()
+
+
 def new_session(interface, history):
     S = bench.Session(interface)
     bench.run_history(S, history)
@@ -202,7 +212,75 @@ def _t(x):
     return x
 
 
+def run_paths(payload, props):
+    """Context sandwiches: run each history twice - observing after every step (invariants after every step) and
+    observing only at the end - and compare the final states (observation non-interference)."""
+    interface = payload["interface"]
+    violations, stats = [], {"paths": 0, "path_steps": 0}
+    for hist in payload["paths"]:
+        hist = _t(hist)
+        stats["paths"] += 1
+        # mode A: step by step with checks
+        final_a = None
+        bad = False
+        for i in range(len(hist)):
+            res = check_step(interface, hist[:i], hist[i])
+            if res is None:
+                continue
+            stats["path_steps"] += 1
+            key, expandable, out, outcome = res
+            for p in props:
+                violations.extend(out[p])
+            if out["C01"] or out["C02"]:
+                bad = True
+                break
+            final_a = key
+        if bad or final_a is None:
+            continue
+        # content of the final state when every step was observed
+        SA = bench.Session(interface)
+        for op in hist:
+            try:
+                with warnings.catch_warnings():
+                    warnings.simplefilter("ignore")
+                    bench.apply_op(SA, op)
+            except bench.Disabled:
+                pass
+            except Exception:
+                pass
+            observe.raw_lp(SA.model)  # flushes optlang's queue like an observation does
+        final_a = content_key(SA)
+        # mode B: no intermediate observation
+        S = new_session(interface, hist)
+        try:
+            view = observe.python_view(S.model)
+            raw = observe.raw_lp(S.model)
+        except Exception as exc:
+            for p in props:
+                violations.append(({"op": hist[-1][0], "variant": "", "invariant": "state unobservable after an unobserved "
+                                    "history: " + type(exc).__name__, "impl": "", "in_context": False},
+                                   {"interface": interface, "history": _l(hist[:-1]), "op": _l(hist[-1]), "path": True}, repr(exc)))
+            continue
+        if "C01" in props:
+            lp = observe.lp_problems(S.model, S.user_cols, S.user_rows, raw=raw)
+            for q in lp[:2]:
+                violations.append(({"op": "+".join(o[0] for o in hist), "variant": "unobserved", "invariant": normalise(q),
+                                    "impl": "returned", "in_context": False},
+                                   {"interface": interface, "history": _l(hist[:-1]), "op": _l(hist[-1]), "path": True},
+                                   f"history {hist} executed without intermediate observation\n" + "\n".join(lp[:5])))
+        if content_key(S, view, raw) != final_a:
+            for p in props:
+                violations.append(({"op": "+".join(o[0] for o in hist), "variant": "unobserved",
+                                    "invariant": "final state depends on whether the model was observed (solver flushed) in between",
+                                    "impl": "returned", "in_context": False},
+                                   {"interface": interface, "history": _l(hist[:-1]), "op": _l(hist[-1]), "path": True},
+                                   f"history {hist}"))
+    return {"violations": violations[:300], "stats": stats, "succ": []}
+
+
 def run_task(payload, props=("C01", "C02")):
+    if payload.get("kind") == "paths":
+        return run_paths(payload, props)
     interface = payload["interface"]
     tier = payload["tier"]
     ops = bench.alphabet(tier)
@@ -248,6 +326,9 @@ def run_task(payload, props=("C01", "C02")):
 
 
 def replay_case(case, props):
+    if case.get("path"):
+        r = run_paths({"interface": case["interface"], "paths": [list(case["history"]) + [case["op"]]]}, props)
+        return [{"sig": s, "detail": d} for s, c, d in r["violations"]]
     res = check_step(case["interface"], _t(case["history"]), _t(case["op"])) if case.get("op") else None
     if res is None:
         return []
@@ -279,6 +360,25 @@ def explore(ctx, props, depth_quick=2, depth_thorough=3):
         seen = res["seen"]
         for key in list(seen)[-2:]:
             ctx.sample({"interface": interface, "history": _l(seen[key])})
+        # context sandwiches (depth 4): enter, a, b, exit
+        sw = bench.sandwich_alphabet(ctx.tier)
+        paths = [[("enter",), a, b, ("exit",)] for a in sw for b in sw]
+        if interface != "glpk" and not ctx.thorough:
+            paths = paths[::7]
+        payloads = [{"kind": "paths", "interface": interface, "paths": [_l(p) for p in paths[i:i + 25]]}
+                    for i in range(0, len(paths), 25)]
+        with ctx.pool(timeout=900) as pool2:
+            for i, status, r0 in pool2.imap(payloads):
+                r = ctx.collect(status, r0)
+                if r is None:
+                    if status in ("abort", "timeout"):
+                        ctx.violation({"op": "path", "variant": "", "invariant": "worker " + status, "impl": "", "in_context": True},
+                                      {"interface": interface, "history": payloads[i]["paths"][0][:-1],
+                                       "op": payloads[i]["paths"][0][-1], "path": True}, status)
+                    continue
+                for k2, v2 in r["stats"].items():
+                    stats_all[k2] = stats_all.get(k2, 0) + v2
+        total["transitions"] += 0
     ctx.cov.update({
         "states": total["states"], "transitions": total["transitions"],
         "traces_validated_against_impl": total["transitions"],
@@ -292,6 +392,7 @@ def explore(ctx, props, depth_quick=2, depth_thorough=3):
         "outcomes": stats_all,
         "distinct_outcomes": len([k for k in stats_all if k.startswith("outcome:")]),
         "failing_op_transitions": stats_all.get("failing_ops", 0),
+        "context_sandwich_histories_depth4": stats_all.get("paths", 0), "context_sandwich_steps": stats_all.get("path_steps", 0),
         "audits": {"non_interference_replays": stats_all.get("audit_non_interference", 0),
                    "bisimulation_merged_histories": total.get("audit_merged_histories_audited", 0),
                    "bisimulation_mismatches": total.get("audit_mismatches", 0)},
